@@ -34,18 +34,37 @@ func plainWire(v any) W {
 			m[k] = plainWire(e)
 		}
 		return map[string]any{"m": m}
-	case map[any]any:
-		// yaml.v3 yields this for mappings with non-string keys; keys are stringified as the
-		// repaired decoder does (fmt.Sprint)
+	case []any:
+		l := make([]any, len(x))
+		for i, e := range x {
+			l[i] = plainWire(e)
+		}
+		return l
+	default:
+		return scalarWire(v)
+	}
+}
+
+// plainWireK is plainWire for values that may contain maps with non-string keys (yaml.v3
+// yields map[any]any for those): keys are stringified as the repaired decoder does (fmt.Sprint).
+func plainWireK(v any) W {
+	switch x := v.(type) {
+	case map[string]any:
 		m := map[string]any{}
 		for k, e := range x {
-			m[fmt.Sprint(k)] = plainWire(e)
+			m[k] = plainWireK(e)
+		}
+		return map[string]any{"m": m}
+	case map[any]any:
+		m := map[string]any{}
+		for k, e := range x {
+			m[fmt.Sprint(k)] = plainWireK(e)
 		}
 		return map[string]any{"m": m}
 	case []any:
 		l := make([]any, len(x))
 		for i, e := range x {
-			l[i] = plainWire(e)
+			l[i] = plainWireK(e)
 		}
 		return l
 	default:
